@@ -5,6 +5,7 @@ import (
 	"fmt"
 	"math"
 	"net"
+	"reflect"
 	"sort"
 	"strings"
 	"time"
@@ -209,7 +210,81 @@ func c12Exec(c *fw.Ctx, sub c12Subject, steps []c12Step, vals map[string]interfa
 	c.Class(format + "/" + fmt.Sprintf("%T", ch.Value))
 }
 
+// c12Twins: two live instances built by the same constructor, one with narrowed bounds; updates alternate.
+// Each instance must respect ITS OWN declared bounds.
+func c12Twins(c *fw.Ctx) {
+	for si, ct := range catalog.CharacteristicCtors {
+		if !c.Mine(si) {
+			continue
+		}
+		va, err := ct.Build()
+		if err != nil || catalog.Char(va) == nil {
+			continue
+		}
+		a := catalog.Char(va)
+		mn, okMin := num(a.MinValue)
+		mx, okMax := num(a.MaxValue)
+		if !okMin || !okMax || mx-mn < 4 {
+			continue
+		}
+		vb, _ := ct.Build()
+		b := catalog.Char(vb)
+		narrowMin, narrowMax := mn+1, mx-2
+		setBounds := func(obj interface{}, lo, hi float64) {
+			for _, m := range []struct {
+				name string
+				v    float64
+			}{{"SetMinValue", lo}, {"SetMaxValue", hi}} {
+				meth := reflect.ValueOf(obj).MethodByName(m.name)
+				if !meth.IsValid() {
+					continue
+				}
+				arg := reflect.ValueOf(m.v)
+				if meth.Type().In(0).Kind() == reflect.Int {
+					arg = reflect.ValueOf(int(m.v))
+				}
+				meth.Call([]reflect.Value{arg})
+			}
+		}
+		setBounds(vb, narrowMin, narrowMax)
+		cas := c12Case{Subject: "twins:characteristic." + ct.Name}
+		for round := 0; round < 3; round++ {
+			c.Eval(1)
+			c.State(1)
+			c.Trace(1)
+			c.Transition(4)
+			// wide instance first, then the narrow one, values beyond the narrow bounds but inside the wide ones
+			for _, step := range []struct {
+				ch  *characteristic.Characteristic
+				val float64
+			}{{a, mx}, {b, mx}, {a, mn}, {b, mn}, {b, mx + 100}, {a, mx + 100}, {b, mn - 100}} {
+				var v interface{} = step.val
+				if p := guard(func() {
+					if round%2 == 0 {
+						step.ch.UpdateValue(v)
+					} else {
+						step.ch.UpdateValueFromConnection(v, nullConn{})
+					}
+				}); p != nil {
+					c.Report("twins/panic/"+a.Format, fmt.Sprintf("%s: update panics: %v", ct.Name, p), cas)
+					break
+				}
+				if step.ch.Value != nil && !inBounds(step.ch, step.ch.Value) {
+					which := "narrow"
+					if step.ch == a {
+						which = "default"
+					}
+					c.Report("twins/out-of-range/"+a.Format+"/"+which, fmt.Sprintf("%s: with two live instances (bounds [%v,%v] and [%v,%v]) the %s one stores %v after an update with %v", ct.Name, mn, mx, narrowMin, narrowMax, which, step.ch.Value, step.val), cas)
+					break
+				}
+			}
+		}
+		c.Class("twins:" + a.Format)
+	}
+}
+
 func c12Run(c *fw.Ctx) {
+	c12Twins(c)
 	subs := c12Subjects()
 	base := c12Values()
 	idx := 0
@@ -269,6 +344,10 @@ func c12Run(c *fw.Ctx) {
 func c12Replay(c *fw.Ctx, raw json.RawMessage) {
 	var cas c12Case
 	json.Unmarshal(raw, &cas)
+	if strings.HasPrefix(cas.Subject, "twins:") {
+		c12Twins(c)
+		return
+	}
 	for _, sub := range c12Subjects() {
 		if sub.Name != cas.Subject {
 			continue
@@ -294,7 +373,7 @@ func init() {
 	fw.Register(&fw.Check{
 		ID:          "C12",
 		Level:       "model_checking",
-		Rule:        "every characteristic constructor found in /repo plus 16 generic constructor × format × bounds configurations; every update sequence of length ≤2 (thorough: ≤3 once per behaviour class = (format, min, max, default type, permissions)) over ≈40 JSON-like values (numbers of every magnitude and sign, numeric / NaN / Inf strings, booleans, null, arrays, objects, the constructor's own min−1/min/max/max+1), each applied locally or from a connection; after every update: no panic, stored value has the Go type of the format, is finite and within declared bounds, typed getter and JSON encoding succeed. states = executed sequences, distinct_nontrivial = distinct (format, stored Go type) classes",
+		Rule:        "every characteristic constructor found in /repo plus 16 generic constructor × format × bounds configurations; every update sequence of length ≤2 (thorough: ≤3 once per behaviour class = (format, min, max, default type, permissions)) over ≈40 JSON-like values (numbers of every magnitude and sign, numeric / NaN / Inf strings, booleans, null, arrays, objects, the constructor's own min−1/min/max/max+1), each applied locally or from a connection; plus, for every constructor with declared bounds, two live instances (one with narrowed bounds) updated alternately; after every update: no panic, stored value has the Go type of the format, is finite and within declared bounds, typed getter and JSON encoding succeed. states = executed sequences, distinct_nontrivial = distinct (format, stored Go type) classes",
 		Run:         c12Run,
 		Replay:      c12Replay,
 		Budget:      func(string) time.Duration { return 25 * time.Minute },
